@@ -337,7 +337,53 @@ def r4_constructor_untouched(repo):
             built_here and order
         msg = ("the only store must be <new object>.t_constructor.supertypes = <self.supertypes saved before the "
                "substitution>: attr=%s path=%s value-from=%s built-here=%s" % (e.attr, e.path, srcs, built_here))
-    return [Ob("C07-R4", "TypeConstructor.new:reinstalls-only-supertypes-on-the-copy", _w(f), ok, msg)]
+    obs = [Ob("C07-R4", "TypeConstructor.new:reinstalls-only-supertypes-on-the-copy", _w(f), ok, msg)]
+    # the map the supertypes are rewritten with sends parameter i to argument i *as given* (a projection stays a
+    # projection: Foo<out String> has the supertype Mid<out String>, not Mid<String>)
+    targs = f.params[1] if len(f.params) > 1 else "type_args"
+    maps = [n for n in iter_own_nodes(f.node) if isinstance(n, ast.DictComp)]
+    ok2, msg2 = False, "no `{tp: %s[i] for i, tp in enumerate(self.type_parameters)}` in TypeConstructor.new" % targs
+    if len(maps) == 1:
+        m = maps[0]
+        g0 = m.generators[0]
+        tv = [x.id for x in ast.walk(g0.target) if isinstance(x, ast.Name)]
+        ok2 = len(m.generators) == 1 and not g0.ifs and src(g0.iter) == "enumerate(self.type_parameters)" and \
+            len(tv) == 2 and src(m.key) == tv[1] and src(m.value) == "%s[%s]" % (targs, tv[0])
+        msg2 = "`%s`; expected parameter i -> %s[i], nothing else" % (src(m)[:90], targs)
+        sub = [c for c in calls_in(f.node) if call_name(c) == "perform_type_substitution"]
+        holder = [n for n in iter_own_nodes(f.node) if isinstance(n, ast.Assign) and n.value is m]
+        ok2 = ok2 and len(sub) == 1 and len(sub[0].args) >= 2 and \
+            (sub[0].args[1] is m or (holder and src(sub[0].args[1]) == src(holder[0].targets[0])))
+    obs.append(Ob("C07-R4", "TypeConstructor.new:supertypes-rewritten-with-the-arguments-as-given", _w(f), ok2, msg2))
+    return obs
+
+
+def r9_type_args_fixed(repo):
+    """inside the type representation (src/ir/types.py: conversions, substitution, instantiation) the type arguments of a
+    parameterized type are bound by its constructor only: the instance's supertypes are derived from them there, so
+    re-binding `.type_args` on an existing (or copied) object leaves supertypes that mention the old arguments.  (Outside
+    that module two writers exist and are not judged here: the overwriting mutation's element store, C04-R1, and
+    find_sam_fun_signature on a function type it has just built - function types have no supertypes to rewrite.)"""
+    obs = []
+    n_init = 0
+    for qual, f in sorted(repo.functions.items()):
+        if f.module.name != T:
+            continue            # the type representation itself (conversions, substitution, instantiation)
+        for n in iter_own_nodes(f.node):
+            if not isinstance(n, (ast.Assign, ast.AugAssign)):
+                continue
+            for t in (n.targets if isinstance(n, ast.Assign) else [n.target]):
+                for x in ast.walk(t):
+                    if isinstance(x, ast.Attribute) and x.attr == "type_args" and isinstance(x.ctx, ast.Store):
+                        in_init = f.name == "__init__" and src(x.value) == "self" and f.cls is not None and \
+                            any(c.qualname == T + ".ParameterizedType" for c in f.cls.mro())
+                        n_init += 1 if in_init else 0
+                        obs.append(Ob("C07-R9", "%s:%s" % (qual.split(".", 2)[-1], src(t)[:40]), _w(f, n), in_init,
+                                      "`%s` re-binds the type arguments of an existing type; only ParameterizedType.__init__ "
+                                      "may bind them (the instance's supertypes are derived from them there)" % src(n)[:70]))
+    if not n_init:
+        raise AnalysisError("ParameterizedType.__init__ does not bind self.type_args", rule="C07-R9", anchor=T + ".ParameterizedType")
+    return obs
 
 
 def r5_who_may_construct(repo):
@@ -438,6 +484,7 @@ def rules():
                  r6_has_type_variables),
         RuleSpec("C07-R7", "type constructors store their arguments as given", 10, r7_constructors_store_verbatim),
         RuleSpec("C07-R8", "each class of the type representation answers exactly its own kind predicate", 28, r8_kinds),
+        RuleSpec("C07-R9", "type arguments are bound only by ParameterizedType.__init__", 1, r9_type_args_fixed),
     ]
 
 
